@@ -231,19 +231,24 @@ func runCheck(prop, tier string, seed int, t0 time.Time) int {
 		br := runBounded(bs, tier, seed, scratch)
 		boundedEv = append(boundedEv, map[string]interface{}{"name": bs.Name, "level": "bounded (not a proof)", "bound": bs.Bound, "stands_in_for": bs.StandsInFor,
 			"cases": br.Cases, "ok": br.OK, "wall_s": round2(br.WallS)})
-		if !br.OK {
-			// a failure registered in known_findings.json (obligation "bounded:<name>") is reported, not raised
+		if br.Known != "" {
+			// instances of a recorded known finding (the test compares the wrong result with the finding's fingerprint):
+			// reported, not raised -- but only if known_findings.json really lists it (obligation "bounded:<name>")
 			known := false
 			for _, kf := range loadKnownFindings() {
 				if kf.Status == "known" && kf.Property == prop && kf.Obligation == "bounded:"+bs.Name {
 					known = true
 					fmt.Printf("KNOWN-FINDING: property=%s %s\n", prop, kf.Description)
-					fmt.Printf("  instance found by this run: %s\n", firstLines(grepLine(br.Output, "BOUNDED-FAIL"), 1))
+					fmt.Printf("  instances in this run: %s\n", br.Known)
 				}
 			}
 			if !known {
-				boundedFails = append(boundedFails, br)
+				br.OK = false
 			}
+		}
+		if !br.OK {
+			// any other failure of a stand-in (including a wrong result that differs from a known finding's fingerprint)
+			boundedFails = append(boundedFails, br)
 		}
 	}
 	// ---- report ----
